@@ -156,6 +156,8 @@ struct SSCfg {
     bool useParam = false;           // declares top-level params P1 (string) P2 (number)
     bool stripSpace = false;
     bool docFn = false;              // document('aux.xml')
+    int dfVariant = 0;               // which symbol set the named xsl:decimal-format uses (0..2)
+    std::string sysIdStyle;          // "" | "noslash": a stylesheet that includes through a ../ href (used with an unusual base URI)
     bool dupExtPrefix = false;       // extension-element-prefixes lists two prefixes bound to one namespace URI
     std::string sortLang = "de", sortCase;   // "sortlang" feature: lang and case-order ("" = absent)
 };
@@ -172,7 +174,7 @@ inline const std::vector<std::string>& allFeatures() {
         "name", "counts", "strval", "axes", "revaxes", "pos", "key", "keyids", "id", "num-single", "num-multi", "num-any", "num-nocount",
         "fmtnum", "fmtnum-df", "arith", "strfn", "copyof", "copy", "rtf", "nodeset", "calltmpl", "choose", "elemattr", "attrset",
         "lre", "message", "modes", "sort2", "comment-pi", "exslt-set", "exslt-math", "exslt-str", "genid", "lang", "sysprop", "param", "ifbool",
-        "union", "preds", "valnum", "apply-imports", "text-nodes", "ns-axis", "doctype-node", "attr-nodes", "number-value", "bigfmt", "xalan-ext", "docfn", "avt-ns", "extfn", "paramuse", "gate", "num-gate", "sortlang", "num-value", "lazyvar", "manyrtf", "deeprec", "padsupp", "top-nodes", "doe"
+        "union", "preds", "valnum", "apply-imports", "text-nodes", "ns-axis", "doctype-node", "attr-nodes", "number-value", "bigfmt", "xalan-ext", "docfn", "avt-ns", "extfn", "paramuse", "gate", "num-gate", "sortlang", "num-value", "lazyvar", "manyrtf", "deeprec", "padsupp", "top-nodes", "doe", "sort-gate", "bignum-alpha"
     };
     return f;
 }
@@ -204,7 +206,13 @@ struct SSGen {
         if (on("num-nocount")) perNode += o("num-nocount", "<xsl:number/>|<xsl:number level=\"any\"/>|<xsl:number level=\"multiple\" format=\"1-1\"/>");
         if (on("number-value")) perNode += o("number-value", "<xsl:number value=\"count(preceding::*) + 1\" format=\"I\"/>|<xsl:number value=\"position() * 1234\" grouping-separator=\",\" grouping-size=\"3\"/>");
         if (on("fmtnum")) perNode += o("fmtnum", vo("format-number(@v * 1234.5678, '#,##0.00')") + "|" + vo("format-number(@v div 7, '0.###')") + "|" + vo("format-number(@v, '00%')"));
-        if (on("fmtnum-df")) { top += "<xsl:decimal-format name=\"df\" decimal-separator=\",\" grouping-separator=\".\" NaN=\"nan!\" minus-sign=\"~\"/>"; perNode += o("fmtnum-df", vo("format-number(@v * -1234.5, '#.##0,00', 'df')") + "|" + vo("format-number(number('x'), '#', 'df')")); }
+        if (on("fmtnum-df")) {
+            // three symbol sets: a formatter cached for one stylesheet must not serve another one with different symbols
+            static const char* const dec[] = { ",", "!", "." }; static const char* const grp[] = { ".", "'", "," }; static const char* const nan[] = { "nan!", "keine Zahl", "NaN" }; static const char* const mns[] = { "~", "-", "_" };
+            int v = c.dfVariant % 3; std::string D = dec[v], G = grp[v];
+            top += std::string("<xsl:decimal-format name=\"df\" decimal-separator=\"") + D + "\" grouping-separator=\"" + (G == "'" ? "&apos;" : G) + "\" NaN=\"" + nan[v] + "\" minus-sign=\"" + mns[v] + "\"/>";
+            std::string pat = "#" + G + "##0" + D + "00";
+            perNode += o("fmtnum-df", vo("format-number(@v * -1234.5 - 1000000, &quot;" + pat + "&quot;, 'df')") + "|" + vo("format-number(number('x'), '#', 'df')")); }
         if (on("bigfmt")) perNode += o("bigfmt", vo("@v * 100000000000000000000000000000000000000000000000000000000000000000000000000000000000000000000000") + "|" + vo("number(@v) div 100000000000000000000000000000000000000000000000000000000000000000000000000000000000000000000000 div 100000000000000000000000000000000000000000000000000000000000000000000000000000000000000000000000") + "|" + vo("format-number(@v * 10000000000000000000000000000000000000000, '#,###')") + "|" + vo("0.0000000000000000000000000000000000000000000000000000000000001 * @v"));
         if (on("arith")) perNode += o("arith", vo("sum(*/@v)") + "," + vo("@v mod 7") + "," + vo("floor(@v div 3)") + "," + vo("ceiling(@v div 3)") + "," + vo("round(@v div 2)") + "," + vo("@v div 0") + "," + vo("-(@v) * 0") + "," + vo("(@v + 1) * 2 - 3 div 4"));
         if (on("strfn")) perNode += o("strfn", vo("substring(@id, 2)") + "," + vo("translate(name(), 'abc', 'ABC')") + "," + vo("concat(@k, '-', @v)") + "," + vo("contains(., 'a')") + "," + vo("starts-with(@id, 'n1')") + "," + vo("substring-before(concat(@k,':',@v), ':')") + "," + vo("substring-after(concat(@k,':',@v), ':')") + "," + vo("string-length(normalize-space(.))") + "," + vo("substring('12345', 1.5, 2.6)") + "," + vo("substring('12345', 0 div 0, 3)"));
@@ -238,6 +246,9 @@ struct SSGen {
         if (on("num-gate")) perNode += o("num-gate", "<xsl:number level=\"any\" count=\"*[not(@zz) or $GATE = 'x']\"/>|<xsl:number level=\"single\" count=\"*[@k or $GATE = 'x']\"/>");
         if (on("lazyvar")) perNode += "<xsl:if test=\"@v &gt; 30\">" + o("lazyvar", vo("$LAZY1") + "," + vo("count($LAZY2)")) + "</xsl:if>";
         if (on("sortlang")) perNode += "<o f=\"sortlang\" n=\"{@id}\"><xsl:for-each select=\"*\"><xsl:sort select=\"substring('aAbBcC', (count(@*) + string-length(@rk)) mod 6 + 1, 1)\" lang=\"" + c.sortLang + "\"" + (c.sortCase.empty() ? std::string() : " case-order=\"" + c.sortCase + "\"") + "/><xsl:value-of select=\"concat(substring('aAbBcC', (count(@*) + string-length(@rk)) mod 6 + 1, 1), @id, ' ')\"/></xsl:for-each></o>";
+        if (on("sort-gate")) perNode += "<o f=\"sort-gate\" n=\"{@id}\"><xsl:for-each select=\"*\"><xsl:sort select=\"@v + number(boolean(self::*[@id != $P1] or key('nosuchkey', 1)))\" data-type=\"number\"/><xsl:sort select=\"concat(@k, string(boolean(self::*[@id != $P1] or key('nosuchkey', 1))))\"/><xsl:value-of select=\"@id\"/>,</xsl:for-each></o>";
+        // numbers in the thousands for the alphabetic and roman tokens
+        if (on("bignum-alpha")) perNode += o("bignum-alpha", "<xsl:number value=\"count(preceding::*) * 97 + 650\" format=\"A\"/>|<xsl:number value=\"(count(preceding::*) + 1) * 676\" format=\"a\"/>|<xsl:number value=\"count(preceding::*) * 13 + 3990\" format=\"I\"/>|<xsl:number value=\"count(preceding::*) * 1000 + 999\" format=\"1\" grouping-separator=\",\" grouping-size=\"3\"/>");
         if (on("num-value")) perNode += o("num-value", "<xsl:number value=\"count(preceding::*) div 2\"/>|<xsl:number value=\"(count(preceding::*) + 1) div 4\" format=\"a\"/>|<xsl:number value=\"count(*) + 0.5\" format=\"I\"/>|<xsl:number value=\"@v * 1.5\" format=\"01\"/>");
         // many result tree fragments alive at the same time (arena blocks of the fragment allocators hold 10)
         if (on("manyrtf")) { std::string vars, uses; for (int i = 0; i < 13; ++i) { std::string n = "mr" + std::to_string(i); vars += "<xsl:variable name=\"" + n + "\"><r" + std::to_string(i) + "><xsl:value-of select=\"@id\"/></r" + std::to_string(i) + ">t" + std::to_string(i) + "</xsl:variable>"; uses += "<xsl:value-of select=\"string-length($" + n + ")\"/>,"; }
@@ -293,11 +304,11 @@ struct SSGen {
         if (c.cdataElems) s += " cdata-section-elements=\"cd\"";
         s += "/>\n";
         if (c.useInclude) {
-            s += "<xsl:include href=\"inc1.xsl\"/>\n";
+            s += std::string("<xsl:include href=\"") + (c.sysIdStyle == "noslash" ? "../inc1.xsl" : "inc1.xsl") + "\"/>\n";
             out.resources["inc1.xsl"] = "<?xml version=\"1.0\"?><xsl:stylesheet version=\"1.0\" xmlns:xsl=\"http://www.w3.org/1999/XSL/Transform\"><xsl:template name=\"incT\"><xsl:param name=\"x\"/>inc[<xsl:value-of select=\"$x\"/>]</xsl:template></xsl:stylesheet>";
         }
         if (c.stripSpace) s += "<xsl:strip-space elements=\"*\"/><xsl:preserve-space elements=\"p item\"/>\n";
-        if (c.useParam || c.on.count("param") || c.on.count("paramuse") || c.on.count("gate") || c.on.count("num-gate")) s += "<xsl:param name=\"P1\" select=\"'dflt'\"/><xsl:param name=\"P2\" select=\"40\"/>\n";
+        if (c.useParam || c.on.count("param") || c.on.count("paramuse") || c.on.count("gate") || c.on.count("num-gate") || c.on.count("sort-gate")) s += "<xsl:param name=\"P1\" select=\"'dflt'\"/><xsl:param name=\"P2\" select=\"40\"/>\n";
         s += "<xsl:variable name=\"G1\" select=\"count(//*)\"/>\n";
         if (c.on.count("gate") || c.on.count("num-gate")) s += "<xsl:variable name=\"GATE\"><xsl:if test=\"$P1 = 'abort'\"><xsl:message terminate=\"yes\">gate closed</xsl:message></xsl:if><xsl:if test=\"$P1 = 'badkey'\"><xsl:value-of select=\"count(key('nosuchkey', 1))\"/></xsl:if>open</xsl:variable>\n";
         if (c.on.count("lazyvar")) s += "<xsl:variable name=\"LAZY1\" select=\"sum(//@v[. &gt; 0])\"/><xsl:variable name=\"LAZY2\" select=\"//*[@k][position() &lt; 4]\"/>\n";
